@@ -811,7 +811,7 @@ class Translator:
 
 
 def gen_auction_fns():
-    tree = gen.normalise_ifs(gen.parse(REL), 'stmt')
+    tree = gen.inline_private_helpers(gen.normalise_ifs(gen.parse(REL), 'stmt'), CLASS, set(METHODS))
     imports, numpy_as, cls = {}, None, None
     for i, node in enumerate(tree.body):
         if isinstance(node, ast.ImportFrom):
